@@ -20,7 +20,7 @@ CONSTANTS Devs,      \* set of enabled deviation names (see DevNames)
 
 DevNames == {"PendingReuse", "PaintBody", "MacroequalSpace", "StaleNewline",
              "StrTrailingNL", "StrSkipsNested", "ZeroParamNL", "ArgNewlineTok",
-             "TrailingComma", "StaleDepth", "ArgUseAfterFree", "KeywordFreesLit", "UndefFreesHeldBody"}
+             "TrailingComma", "StaleDepth", "ArgUseAfterFree", "KeywordFreesLit", "UndefFreesHeldBody", "TextPaste"}
 (* the last three are uses of freed memory: the model continues as if the memory *)
 (* were intact and records that the real outcome is unpredictable (WildDevs)   *)
 WildDevs == {"ArgUseAfterFree", "KeywordFreesLit", "UndefFreesHeldBody"}
@@ -34,7 +34,8 @@ KnownDevs == {"StrSkipsNested", "StaleDepth"}
 (* repaired in /repo (fix: commits of 2026-10-04; known_findings.d/C12.json has the hashes); the disjuncts are kept,
    switched off, as the record of what the defect was (config sec8_hist exhibits each against Expand):
    PendingReuse PaintBody ArgUseAfterFree UndefFreesHeldBody (next() copies the token), KeywordFreesLit,
-   MacroequalSpace, StaleNewline, TrailingComma, StrTrailingNL ZeroParamNL ArgNewlineTok (new-lines in invocations) *)
+   MacroequalSpace, StaleNewline, TrailingComma, StrTrailingNL ZeroParamNL ArgNewlineTok (new-lines in invocations),
+   TextPaste (main.c -E loop separates tokens that would paste; config qp_textpaste is its record) *)
 NoDevs == {}
 Dev(n) == n \in Devs
 
@@ -655,6 +656,72 @@ TextLines(syms, i, cur) ==
   ELSE IF syms[i] = "NL" THEN <<Line("text", "", FALSE, <<>>, ToksOf(cur, 1))>> \o TextLines(syms, i + 1, <<>>)
   ELSE TextLines(syms, i + 1, Append(cur, syms[i]))
 
+(* ------------------------------------------------------------------------ *)
+(* The text `cproc-qbe -E` prints (main.c) and its re-scanning.  Macro        *)
+(* replacement makes tokens adjacent that were not adjacent in the source;    *)
+(* the text must separate every pair that would be scanned differently when   *)
+(* pasted (C11 5.1.1.2 phase 3, 6.4p4 maximal munch), else compiling the      *)
+(* printed text is not compiling the unit.                                    *)
+PunctSet == {"[", "]", "(", ")", "{", "}", ".", "->", "++", "--", "&", "*", "+", "-", "~", "!", "/", "%", "<<", ">>", "<", ">",
+             "<=", ">=", "==", "!=", "^", "|", "&&", "||", "?", ":", "::", ";", "...", "=", "*=", "/=", "%=", "+=", "-=",
+             "<<=", ">>=", "&=", "^=", "|=", ",", "#", "##"}
+Quotes == {"\"", "'"}
+Prefixes == {"L", "u", "U", "u8"}
+IsIdCh(c) == c \in Letters \cup Digits
+RECURSIVE IdEnd(_, _), NumEnd(_, _), QuoteEnd(_, _, _), LexS(_, _, _)
+IdEnd(s, i) == IF i <= Len(s) /\ IsIdCh(Ch(s, i)) THEN IdEnd(s, i + 1) ELSE i
+NumEnd(s, i) ==      \* pp-number: digits, letters, '_', '.', and a sign after e E p P
+  IF i > Len(s) THEN i
+  ELSE LET c == Ch(s, i) IN
+    IF IsIdCh(c) \/ c = "." \/ (c \in {"+", "-"} /\ Ch(s, i - 1) \in {"e", "E", "p", "P"}) THEN NumEnd(s, i + 1) ELSE i
+QuoteEnd(s, i, q) == IF i > Len(s) THEN i ELSE IF Ch(s, i) = "\\" THEN QuoteEnd(s, i + 2, q) ELSE IF Ch(s, i) = q THEN i + 1 ELSE QuoteEnd(s, i + 1, q)
+(* the spellings of the preprocessing tokens of the text s (white space = blank) *)
+LexS(s, i, acc) ==
+  IF i > Len(s) THEN acc
+  ELSE LET c == Ch(s, i)
+           Tok(e) == LexS(s, e, Append(acc, SubSeq(s, i, e - 1))) IN
+    IF c = " " THEN LexS(s, i + 1, acc)
+    ELSE IF c \in Quotes THEN Tok(QuoteEnd(s, i + 1, c))
+    ELSE IF c \in Digits \/ (c = "." /\ i < Len(s) /\ Ch(s, i + 1) \in Digits) THEN Tok(NumEnd(s, i + 1))
+    ELSE IF c \in Letters THEN
+      LET e == IdEnd(s, i) IN
+      IF SubSeq(s, i, e - 1) \in Prefixes /\ e <= Len(s) /\ Ch(s, e) \in Quotes THEN Tok(QuoteEnd(s, e + 1, Ch(s, e))) ELSE Tok(e)
+    ELSE IF i < Len(s) /\ SubSeq(s, i, i + 1) \in {"//", "/*"} THEN Append(acc, "<comment>")
+    ELSE IF i + 2 <= Len(s) /\ SubSeq(s, i, i + 2) \in PunctSet THEN Tok(i + 3)
+    ELSE IF i + 1 <= Len(s) /\ SubSeq(s, i, i + 1) \in PunctSet THEN Tok(i + 2)
+    ELSE Tok(i + 1)
+Lex(s) == LexS(s, 1, <<>>)
+
+(* declarative: b written directly after a must be separated *)
+MustSep(a, b) == Lex(a.s \o b.s) # <<a.s, b.s>> \/ (a.s = "." /\ Ch(b.s, 1) = ".")      \* ". . ." must not become "..."
+(* pairs that form a digraph (6.4.6p3); pp.c's scanner has none, a conforming reader of the text has *)
+Digraph(a, b) == a.k = "p" /\ (a.s \o Ch(b.s, 1)) \in {"<:", "<%", "%>", ":>", "%:"}
+(* main.c pastes(): the rule the -E loop uses to force a blank (transcription) *)
+JoinSet == {"->", "++", "--", "<<", ">>", "<=", ">=", "==", "!=", "&&", "||", "::", "*=", "/=", "%=", "+=", "-=", "<<=", ">>=",
+            "&=", "^=", "|=", "##", "//", "/*", "<:", "<%", "%>", ":>", "%:"}
+PasteC(a, b) ==
+  LET c == Ch(b.s, 1)
+      last == Ch(a.s, Len(a.s)) IN
+  CASE a.k \in {"str", "chr"} -> FALSE
+    [] a.k = "num" -> IsIdCh(c) \/ c = "." \/ (c \in {"+", "-"} /\ last \in {"e", "E", "p", "P"})
+    [] a.k = "id"  -> IF c \in Quotes THEN a.s \in Prefixes ELSE IsIdCh(c)
+    [] OTHER       -> (a.s = "." /\ (c = "." \/ c \in Digits)) \/ (a.s \o c) \in JoinSet
+(* the rule is exactly the requirement on representatives of every token class *)
+PasteReps == {Tk("id", "q", FALSE), Tk("id", "L", FALSE), Tk("id", "u8", FALSE), Tk("num", "1", FALSE), Tk("num", "1e", FALSE),
+              Tk("num", "0x1p", FALSE), Tk("str", "\"s\"", FALSE), Tk("chr", "'c'", FALSE)}
+             \cup {Tk("p", x, FALSE) : x \in PunctSet \ {"(", ")", ","}}
+ASSUME \A a \in PasteReps, b \in PasteReps : PasteC(a, b) <=> (MustSep(a, b) \/ Digraph(a, b))
+
+NoPrev == Tk("none", "", FALSE)
+RECURSIVE TextFrom(_, _, _, _)
+TextFrom(o, i, prev, acc) ==
+  IF i > Len(o) THEN acc
+  ELSE IF o[i].k = "nl" THEN TextFrom(o, i + 1, NoPrev, acc \o " ")
+  ELSE LET sep == o[i].sp \/ (prev.k # "none" /\ ~Dev("TextPaste") /\ PasteC(prev, o[i]))   \* TextPaste: blank only where the source had one
+       IN TextFrom(o, i + 1, o[i], acc \o (IF sep THEN " " ELSE "") \o o[i].s)
+TextOf(o) == TextFrom(o, 1, NoPrev, "")
+SpellingsOf(o) == LET idx == SelectSeq([i \in 1..Len(o) |-> i], LAMBDA i : o[i].k # "nl") IN [j \in 1..Len(idx) |-> o[idx[j]].s]
+
 SeqsUpTo(S, n) == UNION {[1..k -> S] : k \in 0..n}
 Def(n, fn, ps, syms) == Line("def", n, fn, ps, Body(SelectSeq(syms, LAMBDA y : y # "NL")))
 Undef(n) == Line("undef", n, FALSE, <<>>, <<>>)
@@ -751,7 +818,18 @@ ProgSpace ==
          <<Def("T", FALSE, <<>>, <<"int">>)>> \o Text(<<"T", "a", ";", "T", "b", ";">>),
          <<Def("A", TRUE, <<"x">>, <<"x">>), Def("B", FALSE, <<>>, <<"A">>)>> \o Text(<<"B">>) \o <<Undef("B")>>,
          <<Def("G", TRUE, <<"x">>, <<"x", ")">>), Def("Q", FALSE, <<>>, <<"g", "~(", "G">>), Def("g", TRUE, <<"a">>, <<"[", "a", "]">>)>>
-            \o Text(<<"Q", "(", "~1", "~)", "2", ")">>) }
+            \o Text(<<"Q", "(", "~1", "~)", "2", ")">>),
+         <<Line("def", "NEG", FALSE, <<>>, <<Tk("p", "-", TRUE), Tk("id", "x", FALSE)>>)>>
+            \o <<Line("text", "", FALSE, <<>>, <<Tk("id", "r", FALSE), Tk("p", "-", TRUE), Tk("id", "NEG", FALSE), Tk("p", ";", FALSE)>>)>> }
+    [] Space = "qp" ->   \* every pair of token classes made adjacent by replacement: argument edge, body edge, empty expansion
+                         \* between, stringified neighbour (for the text round trip of -E)
+       LET R == {"q", "L", "u8", "1", "1e", "\"s\"", "'c'", ".", "+", "-", "<", ">", "=", "/", "*", ":", "#", "%", "&", "<<", "..."}
+           Base == <<Def("F", TRUE, <<"a">>, <<"a">>), Def("E", TRUE, <<>>, <<>>), Def("S", TRUE, <<"a">>, <<"#a">>)>>
+           Sy(x) == "~" \o x
+       IN {Base \o Text(<<"r", "F", "~(", Sy(x), "~)", "~F", "~(", Sy(y), "~)">>) : x \in R, y \in R}
+          \cup {Base \o <<Def("O", TRUE, <<>>, <<x>>)>> \o Text(<<"r", "O", "~(", "~)", "~F", "~(", Sy(y), "~)">>) : x \in R \ {"#"}, y \in R}
+          \cup {Base \o Text(<<"r", "F", "~(", Sy(x), "~)", "~E", "~(", "~)", "~F", "~(", Sy(y), "~)">>) : x \in R, y \in R}
+          \cup {Base \o Text(<<"r", "F", "~(", Sy(x), "~)", "~S", "~(", "~q", "~)">>) : x \in R}
     [] Space = "redef2" -> \* define -> USE -> redefine: ctxpush overwrites the space flag of the first replacement token with the
                            \* spacing of the invocation, and white space in front of the replacement list is not part of it
                            \* (6.10.3p2/p7): the first token never takes part in the comparison; interior white space does
@@ -972,9 +1050,14 @@ ModelOutcome ==
 RECURSIVE SetToSeq(_)
 SetToSeq(S) == IF S = {} THEN <<>> ELSE LET e == CHOOSE e \in S : TRUE IN <<e>> \o SetToSeq(S \ {e})
 
+(* the printed text re-scans to the delivered tokens (mode E; the tokens of `out` carry their space flags) *)
+TextOK == Lex(TextOf(out)) = SpellingsOf(out)
+Inv_Text == (status = "ok" /\ mode = "E") => TextOK
+
 CaseRec(per, mo, tag) ==
   [prog |-> prog, mode |-> mode, per |-> SetToSeq(per), model |-> mo, fired |-> SetToSeq(mem.fired), tag |-> tag,
    err |-> mem.err, maxctx |-> mem.maxctx, acts |-> SetToSeq(acts),
+   textok |-> IF Dev("TextPaste") /\ status = "ok" /\ mode = "E" THEN TextOK ELSE TRUE,
    np |-> LET N == SetToSeq(DOMAIN mem.pushes) IN [i \in 1..Len(N) |-> mem.pushes[N[i]]]]
 EmitCase(per, mo, tag) == IF EmitCases THEN PrintT("VCASE " \o ToJson(CaseRec(per, mo, tag))) ELSE TRUE
 
